@@ -93,7 +93,7 @@ func runC10(t *testing.T, x c10Scn, verbose bool) (c vfCase) {
 	var e1 vfE1
 	e1.Cfg[0] = vfSideCfg{IL: x.IL, MTU: x.MTU, MinCwnd: x.MinCwnd, FastRtxWnd: x.FastRtx, CACwndStep: x.CAStep, TSN: x.TSN, RTOMax: 3000}
 	mtu := e1.Cfg[0].mtu()
-	lossSignal, windowLimited := false, false
+	lossSignal, windowLimited, thirdMiss, thirdMissTLR := false, false, false, false
 	pm := vfBubble(t, func() {
 		s := newVfSim(t, &e1, verbose)
 		p := newVfPuppet(s, 1, vfPuppetCfg{IL: x.IL, TSN: 700, ARwnd: uint32(x.ARwnd0)})
@@ -115,7 +115,18 @@ func runC10(t *testing.T, x c10Scn, verbose bool) (c vfCase) {
 			n     int
 			acked bool
 			first time.Duration
+			miss  int  // SACKs that reported the chunk missing below a gap-acked TSN while the sender was not in fast recovery
+			disq  bool // reported missing during a fast-recovery episode: the library's own count is then ahead of this one
+			pr    bool
 		}
+		prSid := map[uint16]bool{}
+		for _, sid := range x.PR {
+			prSid[uint16(sid)] = true
+		}
+		sackCum := x.TSN - 1
+		prevFR := false
+		wantFR, wantTSN := false, uint32(0)
+		prevTLR := false
 		chunks := map[uint32]*tx{}
 		outstanding := 0
 		lastARwnd := x.ARwnd0
@@ -137,7 +148,7 @@ func runC10(t *testing.T, x c10Scn, verbose bool) (c vfCase) {
 					continue // retransmission
 				}
 				before := outstanding
-				chunks[ch.TSN] = &tx{n: len(ch.Data), first: ev.T}
+				chunks[ch.TSN] = &tx{n: len(ch.Data), first: ev.T, pr: prSid[ch.SID]}
 				outstanding += len(ch.Data)
 				cw := int(a.CWND())
 				if int(cwndAtQuiesce) > cw {
@@ -273,11 +284,36 @@ func runC10(t *testing.T, x c10Scn, verbose bool) (c vfCase) {
 						outstanding -= t.n
 					}
 				}
+				// RFC 4960 7.2.4: every SACK that is not out of order and leaves a chunk unacknowledged
+				// below a gap-acknowledged TSN is a miss indication for it; the third one, outside fast
+				// recovery, is a loss signal: the sender must enter fast recovery (and cut its window)
+				if sna32LT(ch.Cum, sackCum) {
+					continue
+				}
+				sackCum = ch.Cum
+				hi := ch.Cum
+				for _, g := range ch.Gaps {
+					if e := ch.Cum + uint32(g[1]); sna32GT(e, hi) {
+						hi = e
+					}
+				}
+				for tsn, t := range chunks {
+					if t.acked || t.pr || !sna32GT(tsn, ch.Cum) || !sna32LT(tsn, hi) {
+						continue
+					}
+					if prevFR {
+						t.disq = true
+					} else if !t.disq {
+						t.miss++
+						if t.miss == 3 && (!wantFR || sna32LT(tsn, wantTSN)) {
+							wantFR, wantTSN = true, tsn
+						}
+					}
+				}
 			}
 		}
 		// invariants at quiescent points
 		prevT3 := uint64(0)
-		prevFR := false
 		prevCwnd := a.CWND()
 		floor := uint32(mtu)
 		if uint32(x.MinCwnd) > floor {
@@ -289,7 +325,18 @@ func runC10(t *testing.T, x c10Scn, verbose bool) (c vfCase) {
 			}
 			pk := vfPeekAssoc(a)
 			if pk.State != established {
+				wantFR = false
 				return
+			}
+			if wantFR {
+				wantFR = false
+				thirdMiss = true
+				if prevTLR {
+					thirdMissTLR = true
+				}
+				if !pk.InFR {
+					c.fail("loss-signal-ignored", "t=%v: tsn=%d was reported missing by a third SACK while the sender was not in fast recovery, and the sender did not enter fast recovery (cwnd %d, before %d)", s.net.now(), wantTSN, pk.CWND, prevCwnd)
+				}
 			}
 			if pk.CWND < uint32(mtu) {
 				c.fail("cwnd-below-mtu", "t=%v: cwnd %d fell below one MTU (%d)", s.net.now(), pk.CWND, mtu)
@@ -333,6 +380,7 @@ func runC10(t *testing.T, x c10Scn, verbose bool) (c vfCase) {
 				_ = outstanding
 			}
 			prevT3, prevFR, prevCwnd = t3, pk.InFR, pk.CWND
+			prevTLR = pk.TLR
 			cwndAtQuiesce = pk.CWND
 		}
 		for _, sid := range x.PR {
@@ -370,6 +418,12 @@ func runC10(t *testing.T, x c10Scn, verbose bool) (c vfCase) {
 	}
 	if windowLimited {
 		c.class("window-limited")
+	}
+	if thirdMiss {
+		c.class("third-miss-indication")
+	}
+	if thirdMissTLR {
+		c.class("third-miss-during-tail-loss-recovery")
 	}
 	if len(x.Mute) > 0 {
 		c.class("ack-outage")
